@@ -147,10 +147,23 @@ class EvaluationMapper(RecursiveMapper, CSECachingMapperMixin):
         return not self.rec(expr.child)
 
     def map_logical_or(self, expr):
-        return any(self.rec(ch) for ch in expr.children)
+        # Like Python's "or" (and the code generated for this node): the
+        # first operand that is true, else the last one.
+        result = False
+        for ch in expr.children:
+            result = self.rec(ch)
+            if result:
+                return result
+        return result
 
     def map_logical_and(self, expr):
-        return all(self.rec(ch) for ch in expr.children)
+        # Like Python's "and": the first operand that is false, else the last.
+        result = True
+        for ch in expr.children:
+            result = self.rec(ch)
+            if not result:
+                return result
+        return result
 
     def map_polynomial(self, expr):
         # evaluate using Horner's scheme
